@@ -87,7 +87,7 @@ CFG = dict(
     n=dict(quick=300, thorough=6000),
     shard=75,
     classify=classify,
-    rule="1-3 Scan() calls of the real Scanner+LivenessScanner over a table of 1-8 groups (normal entries of TCP/UDP/ICMP/"
+    rule="IPv4 (60%) or IPv6 (40%: KeyV6/ValueV6, ipVersion-6 Scanner, cali_v6_ccq cleanup values) flavour per case; 1-3 Scan() calls of the real Scanner+LivenessScanner over a table of 1-8 groups (normal entries of TCP/UDP/ICMP/"
          "ICMPv6/SCTP/GRE/protocol 0 in every TCP flag shape incl. DSR and rst_seen timestamp, NAT forward/reverse pairs "
          "with older / equal / random forward timestamps, forward entries without reverse, two forward entries sharing a "
          "reverse, unknown types), last_seen placed at / one ns around / a second around / far from every timeout that can "
